@@ -90,6 +90,15 @@ Proof. exact write_load_one. Qed.
 Goal True. idtac "ASSUME C18_write_load_one". Abort.
 Print Assumptions C18_write_load_one.
 
+(* the full round trip, any number of parameters: what the profile command writes under "options" (the natively typed
+   values of a run of update on a keyword dictionary) loads back into exactly the dictionary the writer ended with *)
+Theorem C18_write_options_then_load : forall c kw opts,
+  write_options Fixed c kw = Ok opts ->
+  exists d ps acc, update Fixed (c_params c) [] (mkdict kw) = Ok (d, ps) /\ update Fixed (c_params c) [] opts = Ok (d, acc).
+Proof. exact write_options_then_load. Qed.
+Goal True. idtac "ASSUME C18_write_options_then_load". Abort.
+Print Assumptions C18_write_options_then_load.
+
 (* command line: k=v is split at the first '=', '-' in the key reads as '_' *)
 Theorem C18_cli_split : forall k v, forallb (fun x => negb (x =? 61)) k = true ->
   split_param (k ++ 61 :: v) = Some (map (fun ch => if ch =? 45 then 95 else ch) k, v).
